@@ -128,6 +128,14 @@ def check_arrays(ctx, values: list[int], bt):
             if arr[i].ticks != t or type(arr[i]) is not cls:
                 ctx.violation(path=f"{acls.__name__}.getitem", ticks=t, observed=arr[i].ticks, required=t)
                 break
+        # the same records whatever kind of iterable delivered the values (generators and iterators can be read only once)
+        for label, mk in (("iterator", lambda: acls(iter(objs))), ("generator", lambda: acls(x for x in objs)), ("tuple", lambda: acls(tuple(objs))),
+                          ("extend-generator", lambda: (lambda z: (z.extend(x for x in objs), z)[1])(acls())),
+                          ("iadd-iterator", lambda: (lambda z: (z.__iadd__(iter(objs)), z)[1])(acls()))):
+            o = outcome(mk)
+            if o[0] != "ok" or o[1]._array.tobytes() != want:
+                ctx.violation(path=f"{acls.__name__} from a {label}", observed=show(o)[:120] if o[0] != "ok" else f"{len(o[1])} elements", required=f"{len(values)} records, bit-exact")
+                break
         sl = arr[1::2]
         if [x.ticks for x in sl] != values[1::2]:
             ctx.violation(path=f"{acls.__name__}.slice", observed="slice differs", required="values[1::2]")
